@@ -1,6 +1,6 @@
 """C15 — seeded randomness is reproducible and random grains are valid."""
 from .. import facts, run
-from ..rules import pure, rng
+from ..rules import pure, quat, rng
 
 
 def main(tier):
@@ -25,6 +25,7 @@ def main(tier):
         rng.rotation_identity(P, rep, grains_funcs)
     rng.size_normalisation(P, rep, grains_funcs)
     rng.broadcast_single_value(P, rep)
+    quat.quaternion_blend(P, rep)      # orientations blended between two sections stay proper rotations
     rep.explanation = ("Entropy discipline over the whole library (banned sources, every draw on the world's engine, engine "
                        "written only at construction and by the file's seed entry), effect analysis (the RNG draw is the only "
                        "state a query touches), index agreement of per-composition tables, size normalisation shape; thorough "
